@@ -358,7 +358,9 @@ def c07(tier, seed, t0):
     from harness import conform as HC
     agg1, HE = edits("C07", tier, seed, 150 if tier == "quick" else 1800)
     n = 24 if tier == "quick" else 300
-    res = R.run_pool(HC.HNAME, HC.violating_chunks(tier) + HC.chunks(tier, n), 110 if tier == "quick" else 1500, seed, tier,
+    cch = HC.chunks(tier, n)
+    head = [c for c in cch if "maxi" in c or "commented" in c]          # the hand-written corner programs first
+    res = R.run_pool(HC.HNAME, head + HC.violating_chunks(tier) + [c for c in cch if c not in head], 110 if tier == "quick" else 1500, seed, tier,
                      extra=dict(prop="C07", sample_rate=0.1 if tier == "quick" else 0.03, max_ops=1, chunk_time=40 if tier == "quick" else 120),
                      shuffle=False)
     agg2 = R.merge(res)
